@@ -10,7 +10,7 @@ from vfw.props import common, fixcase
 PROPERTY = "C10"
 LEVEL = "exploration"
 RULE = (
-    "case = generated lintable Jinja / python-format / placeholder template (or a repo templater / jinja-autofix fixture) x rule selection {all, format, all minus JJ01} x "
+    "case = generated lintable Jinja / python-format / placeholder template (plus hand-written sources that END in a template expression / parameter without a trailing newline) x rule selection {all, format, all minus JJ01} x "
     "render_variant_limit {1, default}; the real fix is run (Linter.lint_string(fix=True) + fix_string) and the template-code sequence of the source before and after is "
     "extracted independently (Jinja's own lexer; string.Formatter.parse; the style regex) and compared (texts and order; padding inside the delimiters normalised only when "
     "JJ01 is enabled); distinct = source hash + rule set; non-trivial = fix changed the source text and the source contains at least one template element"
@@ -43,8 +43,34 @@ def universe():
     return u
 
 
+TAILS = [
+    ("jinja", "SELECT a FROM t AS {{ v1 }}"), ("jinja", "SELECT a,b FROM tbl {{ v1 }}"), ("jinja", "select a from t where b = {{ v2 }}"), ("jinja", "SELECT a FROM t AS x ORDER BY {{ v2 }}"),
+    ("jinja", "select a from {{ v1 }} AS {{ v1 }}"), ("jinja", "SELECT a FROM t AS {{ v1 }}  "), ("jinja", "SELECT a FROM t AS {{ v1 }}{# c #}"), ("jinja", "{{ v1 }}"),
+    ("jinja", "SELECT a FROM t {% if flag_t %}AS x{% endif %}"), ("jinja", "SELECT a FROM t AS {{ v1 }}\n"),
+    ("placeholder", "SELECT a FROM t AS :al"), ("placeholder", "select a,b from t where c = :name"), ("placeholder", "SELECT a FROM t AS x LIMIT :p1"), ("placeholder", "SELECT a FROM :tbl :al"),
+    ("python", "SELECT a FROM t AS {tbl}"), ("python", "select a,b from {tbl} {col}"),
+]
+
+
+def tail_cases():
+    """sources that END in a template expression / parameter (no trailing newline): the last raw slice is templated"""
+    from vfw.gen import jinja_gen, tmpl_gen
+
+    out = []
+    for i, (t, src) in enumerate(TAILS):
+        for rs in ("all", "format"):
+            ctx = dict(jinja_gen.CONTEXT) if t == "jinja" else (dict(tmpl_gen.PY_CONTEXT) if t == "python" else {"param_style": "colon", "name": "1"})
+            c = {"id": f"tail:{i}|rules={rs}", "kind": "lit", "source": src, "dialect": "ansi", "templater": t, "context": ctx, "rules": rs, "rsname": rs, "stratum": "tail"}
+            if t == "placeholder":
+                c["style"] = "colon"
+            out.append(c)
+    return out
+
+
 def cases(tier, seed):
-    return stratified_sample(universe(), lambda c: c["stratum"], 300 if tier == "quick" else 0, seed)
+    if tier == "quick":
+        return stratified_sample(universe(), lambda c: c["stratum"], 300, seed) + tail_cases()
+    return universe() + tail_cases()
 
 
 def extract(r, text, jj01):
@@ -54,7 +80,7 @@ def extract(r, text, jj01):
     if t == "python":
         return tmplcode.python_fields(text)
     if t == "placeholder":
-        return tmplcode.placeholder_params(text, r["style"])
+        return tmplcode.placeholder_params(text, r.get("style") or "colon")
     return []
 
 
